@@ -108,4 +108,57 @@ theorem xor_eq_zipWith : ∀ (a b : Bytes), a.length = b.length → xor a b = Li
 
 theorem xor_eq_xorB (a b : Bytes) (h : a.length = b.length) : xor a b = xorB a b := xor_eq_zipWith a b h
 
+/-! ### … and so it is through big-endian big integers: the result does not depend on the host's byte order -/
+
+theorem pow256_eq (k : Nat) : (256 : Nat) ^ k = 2 ^ (8 * k) := by
+  rw [show (256 : Nat) = 2 ^ 8 from rfl, ← Nat.pow_mul]
+
+theorem xorBE_step (x y : UInt8) (X Y n : Nat) (hX : X < 256 ^ n) (hY : Y < 256 ^ n) :
+    ((x.toNat * 256 ^ n + X) ^^^ (y.toNat * 256 ^ n + Y)) / 256 ^ n % 256 = (x ^^^ y).toNat ∧
+    ((x.toNat * 256 ^ n + X) ^^^ (y.toNat * 256 ^ n + Y)) % 256 ^ n = X ^^^ Y := by
+  have hp : 0 < 256 ^ n := Nat.pow_pos (by decide)
+  have d1 : (x.toNat * 256 ^ n + X) / 256 ^ n = x.toNat := by
+    rw [Nat.mul_comm, Nat.mul_add_div hp, Nat.div_eq_of_lt hX, Nat.add_zero]
+  have d2 : (y.toNat * 256 ^ n + Y) / 256 ^ n = y.toNat := by
+    rw [Nat.mul_comm, Nat.mul_add_div hp, Nat.div_eq_of_lt hY, Nat.add_zero]
+  have m1 : (x.toNat * 256 ^ n + X) % 256 ^ n = X := by
+    rw [Nat.mul_comm, Nat.mul_add_mod, Nat.mod_eq_of_lt hX]
+  have m2 : (y.toNat * 256 ^ n + Y) % 256 ^ n = Y := by
+    rw [Nat.mul_comm, Nat.mul_add_mod, Nat.mod_eq_of_lt hY]
+  constructor
+  · have := Nat.xor_div_two_pow (a := x.toNat * 256 ^ n + X) (b := y.toNat * 256 ^ n + Y) (n := 8 * n)
+    rw [← pow256_eq] at this
+    rw [this, d1, d2, UInt8.toNat_xor]
+    exact Nat.mod_eq_of_lt (by have := (x ^^^ y).toNat_lt; rwa [UInt8.toNat_xor] at this)
+  · have := Nat.xor_mod_two_pow (a := x.toNat * 256 ^ n + X) (b := y.toNat * 256 ^ n + Y) (n := 8 * n)
+    rw [← pow256_eq] at this
+    rw [this, m1, m2]
+
+/-- on a big-endian host as well, XOR of two equal-length strings is the byte-wise exclusive-or -/
+theorem xorBigEndian_eq_zipWith : ∀ (a b : Bytes), a.length = b.length → xorBigEndian a b = List.zipWith (· ^^^ ·) a b := by
+  intro a
+  induction a with
+  | nil => intro b _; simp [xorBigEndian, toBE]
+  | cons x xs ih =>
+    intro b hb
+    cases b with
+    | nil => simp at hb
+    | cons y ys =>
+      have hl : xs.length = ys.length := by simpa using hb
+      have ih' := ih ys hl
+      unfold xorBigEndian at ih' ⊢
+      have ht : (y :: ys).take (x :: xs).length = y :: ys := List.take_of_length_le (by simp [hl])
+      have ht' : ys.take xs.length = ys := List.take_of_length_le (by simp [hl])
+      rw [ht' ] at ih'
+      rw [ht, fromBE_cons, fromBE_cons, List.length_cons, ← hl]
+      simp only [toBE, List.zipWith_cons_cons]
+      obtain ⟨h1, h2⟩ := xorBE_step x y (fromBE xs) (fromBE ys) xs.length (fromBE_lt xs) (by rw [hl]; exact fromBE_lt ys)
+      rw [h1, h2, ih']
+      congr 1
+      exact UInt8.ofNat_toNat
+
+/-- hence the result does not depend on the host's byte order when the operands have equal lengths -/
+theorem xor_host_independent (a b : Bytes) (h : a.length = b.length) : xorBigEndian a b = xor a b := by
+  rw [xorBigEndian_eq_zipWith a b h, xor_eq_zipWith a b h]
+
 end Pyemv
